@@ -338,8 +338,8 @@ func check(prop string, args []string) int {
 	if tierN == 1 {
 		cfg.SolverMs = 10000
 		cfg.PortfolioS = 120
-		cfg.MaxPaths = 1500000
-		cfg.Deadline = 40 * time.Minute
+		cfg.MaxPaths = 4000000
+		cfg.Deadline = 12 * time.Minute
 		cfg.XCheckEvery = 50 // every 50th solver answer is re-decided by cvc5
 	}
 	if *maxPaths > 0 {
